@@ -326,6 +326,11 @@ func (r *run) addLink(speedMode int) {
 			nInt = 1
 		}
 	}
+	if t.OneIn(150, "long-link") {
+		// a link with hundreds of vertices (a digitised road)
+		nInt = 300 + t.Choose(900, "long-link-n")
+		r.res.Probe("link-with->=300-vertices")
+	}
 	for i := 0; i < nInt; i++ {
 		if r.intMode == 3 {
 			// slight bends: a vertex on the chord, displaced sideways by a fraction
@@ -508,6 +513,39 @@ func (r *run) query() {
 			e, to = fe, fp
 		}
 		r.res.Probe("free-query-points")
+	}
+	if len(ids) >= 2 && t.OneIn(12, "q-near-pair") {
+		// two query points that agree to 3..10 digits and lie on either side of
+		// the bisector between two nodes: "nearly the same point" is not the
+		// same nearest node
+		ai := t.Choose(len(ids), "np-a")
+		a, b := ids[ai], ids[(ai+1+t.Choose(len(ids)-1, "np-b"))%len(ids)]
+		if pa, pb := r.nodes[a], r.nodes[b]; a != b {
+			d := []float64{1e-3, 1e-6, 1e-9, 1e-10, 3e-11}[t.Choose(5, "np-delta")]
+			mx, my := (pa.X+pb.X)/2, (pa.Y+pb.Y)/2
+			f := geom.Point{X: mx - d*(pb.X-pa.X), Y: my - d*(pb.Y-pa.Y)}
+			g := geom.Point{X: mx + d*(pb.X-pa.X), Y: my + d*(pb.Y-pa.Y)}
+			nearest := func(q geom.Point) (int, bool) {
+				best, second, bi := math.Inf(1), math.Inf(1), -1
+				for _, id := range ids {
+					p := r.nodes[id]
+					dd := math.Hypot(p.X-q.X, p.Y-q.Y)
+					if dd < best {
+						best, second, bi = dd, best, id
+					} else if dd < second {
+						second = dd
+					}
+				}
+				// (float64 resolves relative differences down to ~1e-15)
+				return bi, bi >= 0 && second-best > 1e-11*second
+			}
+			if fs, ok1 := nearest(f); ok1 {
+				if ge, ok2 := nearest(g); ok2 {
+					s, from, e, to = fs, f, ge, g
+					r.res.Probe("near-equal-query-points-across-a-bisector")
+				}
+			}
+		}
 	}
 	r.states[r.topoHash()] = struct{}{}
 	if len(r.links) >= 3 && t.OneIn(5, "interleaved-pair") {
